@@ -441,6 +441,18 @@ fn orchard_action_count(
     bundle_type.num_actions(flags, num_spends, num_outputs)
 }
 
+/// Returns `true` if the builder's padding policy demands a bundle even when nothing has
+/// been added to it (the bundle then consists entirely of dummy actions, which are paid for).
+fn bundle_required(builder: &orchard::builder::Builder) -> bool {
+    matches!(
+        builder.bundle_type(),
+        orchard::builder::BundleType::Transactional {
+            bundle_required: true,
+            ..
+        }
+    )
+}
+
 /// A builder for V6 (NU6.3 onward) transactions constructed as PCZTs with their
 /// Orchard-family anchors DEFERRED to proving time, per [ZIP 374].
 ///
@@ -851,18 +863,26 @@ impl<P, U> Builder<P, U> {
     }
 
     /// Returns `true` if any Orchard spend, output, or change output has been
-    /// added to this builder (i.e. the transaction will carry an Orchard bundle).
+    /// added to this builder, or its padding policy demands a bundle regardless
+    /// (i.e. the transaction will carry an Orchard bundle).
     fn orchard_in_use(&self) -> bool {
         self.orchard_builder.as_ref().is_some_and(|b| {
-            !b.spends().is_empty() || !b.outputs().is_empty() || !b.changes().is_empty()
+            !b.spends().is_empty()
+                || !b.outputs().is_empty()
+                || !b.changes().is_empty()
+                || bundle_required(b)
         })
     }
 
     /// Returns `true` if any Ironwood spend, output, or change output has been
-    /// added to this builder (i.e. the transaction will carry an Ironwood bundle).
+    /// added to this builder, or its padding policy demands a bundle regardless
+    /// (i.e. the transaction will carry an Ironwood bundle).
     fn ironwood_in_use(&self) -> bool {
         self.ironwood_builder.as_ref().is_some_and(|b| {
-            !b.spends().is_empty() || !b.outputs().is_empty() || !b.changes().is_empty()
+            !b.spends().is_empty()
+                || !b.outputs().is_empty()
+                || !b.changes().is_empty()
+                || bundle_required(b)
         })
     }
 
